@@ -699,6 +699,13 @@ func indexBounded(x ssa.Value, k int64, b *ssa.BasicBlock) bool {
 
 // sameLengthSource: the slice x is an element-for-element copy of.
 func sameLengthSource(x ssa.Value) ssa.Value {
+	if mk, ok := x.(*ssa.MakeSlice); ok {
+		// make([]T, len(y))
+		if lc, ok := mk.Len.(*ssa.Call); ok && calleeName(lc) == "builtin.len" && len(lc.Call.Args) == 1 {
+			return lc.Call.Args[0]
+		}
+		return nil
+	}
 	c, ok := x.(*ssa.Call)
 	if !ok {
 		return nil
